@@ -399,12 +399,26 @@ class Env:
 
 def opts_to_config(opts):
     m = {'SKIP': 'SKIP', 'ELLIPSIS': 'ELLIPSIS', 'IGNORE_WANT': 'IGNORE_WANT', 'IED': 'IGNORE_EXCEPTION_DETAIL'}
+    if any(k == 'REQ' for k, v in opts):
+        # a requirement as default option goes through the command-line parser of the options string
+        from xdoctest import doctest_example
+        parts = []
+        for k, v in opts:
+            if k == 'REQ':
+                parts += ['+' + REQ_FORMS['REQ' + r][1] for r in sorted(v)]
+            else:
+                parts.append(('+' if v else '-') + m[k])
+        ns = {'options': ','.join(parts).lower(), 'offset_linenos': False, 'colored': False, 'reportchoice': 'udiff', 'global_exec': None,
+              'supress_import_errors': False, 'verbose': 0}
+        return doctest_example.DoctestConfig()._populate_from_cli(ns)['default_runtime_state']
     return {m[k]: v for k, v in opts}
 
 
 def run_case(prog, wants, cfg, rot, modpath=None, verbose=0):
     """Execute; returns observation dict."""
     from xdoctest import doctest_example
+    if any(k == 'REQ' for k, v in cfg['opts']):
+        rot = rot - rot % 3 + 1          # the options string is lower-cased by the command line: use the (lower-case) module: spelling
     text, starts = render_program(prog, wants, rot)
     T = []
     obs = {'text': text, 'layout': starts}
@@ -470,7 +484,8 @@ def run_case(prog, wants, cfg, rot, modpath=None, verbose=0):
     if rs is not None:
         gs = rs._global_state
         obs['final_g'] = {'SKIP': bool(gs['SKIP']), 'IGNORE_WANT': bool(gs['IGNORE_WANT']), 'IED': bool(gs['IGNORE_EXCEPTION_DETAIL']),
-                          'ELLIPSIS': bool(gs['ELLIPSIS']), 'NREQ': len(gs['REQUIRES'])}
+                          'ELLIPSIS': bool(gs['ELLIPSIS']),
+                          'NREQ': len(gs['REQUIRES']) if isinstance(gs['REQUIRES'], (set, frozenset, list)) else repr(gs['REQUIRES'])}
         from xdoctest import directive as _d
         obs['defaults_untouched'] = (_d.DEFAULT_RUNTIME_STATE['REQUIRES'] == set() and not _d.DEFAULT_RUNTIME_STATE['SKIP'])
     obs['dt'] = dt
